@@ -36,7 +36,7 @@ static bool gen_c12(uint64_t seed, const std::string &tier, uint64_t i, Plan &p)
     p.knobs.set("stick", 1.0).set("split_p", 0.0);
     Json d = Json::obj(); d.set("op", "deliver").set("id", "d1").set("sender", c12_sender(r)).set("msg", c12_message(r)).set("local", r.pick(std::vector<std::string>{"user1", "user1-ext", "us\ner"})).set("wait", true);
     p.ops.push(d);
-    int kind = (int)r.below(10); int site = (int)r.range(1, 16);
+    int kind = (int)r.below(11); int site = (int)r.range(1, 16);
     Fault f; f.actor = r.chance(0.85) ? "qmail-local/child" : "qmail-local#"; f.call = C_ANY; f.nth = site;
     switch (kind) {
       case 0: lab = "fault-free"; break;
@@ -48,6 +48,7 @@ static bool gen_c12(uint64_t seed, const std::string &tier, uint64_t i, Plan &p)
       case 6: f.kind = "short"; f.arg = 1 + (int64_t)r.below(5); p.faults.push_back(f); lab = "short-io"; break;
       case 7: { Json pre = Json::arr(); pre.push("Maildir/tmp/" + std::to_string(start) + ".302.sim.example"); if (r.chance(0.5)) pre.push("Maildir/tmp/" + std::to_string(start + 2) + ".302.sim.example"); if (r.chance(0.3)) pre.push("Maildir/tmp/" + std::to_string(start + 4) + ".302.sim.example"); home.set("precreate_tmp", pre); lab = "tmp-name-collision"; break; }
       case 8: f.call = C_LINK; f.nth = 1; f.kind = "error"; f.err = r.pick(std::vector<int>{EEXIST, EEXIST, EMLINK, ENOSPC, EACCES}); p.faults.push_back(f); lab = "link-error"; break;   // EEXIST: the name in new/ is taken (pid reuse, NFS retransmission)
+      case 10: f.actor = "qmail-local"; f.call = C_MALLOC; f.nth = (int)r.range(1, 40); f.kind = "null"; p.faults.push_back(f); lab = "alloc-failure"; break;   // out of memory anywhere in the delivery (parent or writer child)
       case 9: { Json pre = Json::arr(); pre.push("Maildir/new/" + std::to_string(start) + ".302.sim.example"); if (r.chance(0.5)) pre.push("Maildir/new/" + std::to_string(start + 1) + ".302.sim.example"); home.set("precreate_tmp", pre); home.set("foreign_new", pre); lab = "new-name-taken"; break; }
     }
     lab = "maildir " + lab + "@" + std::to_string(site);
@@ -57,9 +58,10 @@ static bool gen_c12(uint64_t seed, const std::string &tier, uint64_t i, Plan &p)
     p.knobs.set("stick", 1.0).set("split_p", 0.0);
     Json d = Json::obj(); d.set("op", "deliver").set("id", "d1").set("sender", c12_sender(r)).set("msg", c12_message(r)).set("wait", true);
     p.ops.push(d);
-    int kind = (int)r.below(4);
-    if (kind >= 1) { Fault f; f.actor = "qmail-local#"; f.call = kind == 1 ? C_WRITE : kind == 2 ? C_FSYNC : C_WRITE; f.path = "Mailbox"; f.nth = (int)r.range(1, 6); f.kind = "error"; f.err = r.pick(std::vector<int>{ENOSPC, EIO, EDQUOT}); if (kind == 3) f.arg = (int64_t)r.range(1, 200); p.faults.push_back(f); }
-    lab = std::string("mbox ") + (kind == 0 ? "fault-free" : kind == 1 ? "write-error" : kind == 2 ? "fsync-error" : "short-write-then-error");
+    int kind = (int)r.below(5);
+    if (kind == 4) { Fault f; f.actor = "qmail-local"; f.call = C_MALLOC; f.nth = (int)r.range(1, 40); f.kind = "null"; p.faults.push_back(f); }
+    else if (kind >= 1) { Fault f; f.actor = "qmail-local#"; f.call = kind == 1 ? C_WRITE : kind == 2 ? C_FSYNC : C_WRITE; f.path = "Mailbox"; f.nth = (int)r.range(1, 6); f.kind = "error"; f.err = r.pick(std::vector<int>{ENOSPC, EIO, EDQUOT}); if (kind == 3) f.arg = (int64_t)r.range(1, 200); p.faults.push_back(f); }
+    lab = std::string("mbox ") + (kind == 0 ? "fault-free" : kind == 1 ? "write-error" : kind == 2 ? "fsync-error" : kind == 3 ? "short-write-then-error" : "alloc-failure");
   } else {   // concurrent mbox deliveries
     files.push(Json::obj().set("name", ".qmail").set("content", "./Mailbox\n").set("mode", 0600));
     home.set("mbox", "Mailbox"); home.set("mbox_initial", r.chance(0.5) ? std::string() : std::string("From old@x Thu Jan  1 00:00:00 1970\n\nold\n\n"));
@@ -139,6 +141,7 @@ static bool gen_c13(uint64_t seed, const std::string &tier, uint64_t i, Plan &p)
     p.ops.push(d);
   }
   p.label = "files=" + std::to_string(files.a.size()) + " deliveries=" + std::to_string(nd);
+  if (r.chance(0.08)) { Fault f; f.actor = "qmail-local"; f.call = C_MALLOC; f.nth = (int)r.range(1, 60); f.kind = "null"; p.faults.push_back(f); }   // out of memory: a temporary failure, judged by C12's outcome rules only (fault_hit)
   return true;
 }
 
